@@ -142,16 +142,16 @@ func (c *lctx) reopen() error {
 func afterRestart(ch *polyenv.Chain, m []mblock) (bad []string) {
 	ht := uint32(len(m) - 1)
 	if n, _ := ch.L.VerifBlockMerkleMem(); n != ht+1 {
-		bad = append(bad, fmt.Sprintf("accumulator size %d at height %d", n, ht))
+		bad = append(bad, fmt.Sprintf("accumulator-size: %d at height %d", n, ht))
 	}
 	if n, _ := ch.L.VerifStateMerkleMem(); n != ht+1 {
-		bad = append(bad, fmt.Sprintf("state merkle size %d at height %d", n, ht))
+		bad = append(bad, fmt.Sprintf("state-merkle-size: %d at height %d", n, ht))
 	}
 	if _, sh, err := ch.L.VerifStateCurrentBlock(); err != nil || sh != ht {
-		bad = append(bad, fmt.Sprintf("state height %d (err %v) at block height %d", sh, err, ht))
+		bad = append(bad, fmt.Sprintf("state-height: %d (err %v) at block height %d", sh, err, ht))
 	}
 	if got := ch.L.GetBlockRootWithPreBlockHashes(ht+1, []common.Uint256{m[ht].Hash}); got != refRoot(m) {
-		bad = append(bad, "root demanded from the next block != reference accumulator root")
+		bad = append(bad, "next-block-root: root demanded from the next block != reference accumulator root")
 	}
 	for _, x := range lookups(ch, m) {
 		bad = append(bad, "lookup: "+x)
